@@ -171,6 +171,9 @@ func observe(c *pipe.Case, g *pipe.Got, ref []pipe.RefLine, ordered bool) {
 	}
 	for _, in := range c.Inputs {
 		b := []byte(in.Content)
+		for k := 1; k*pipe.ReadBuf <= len(b); k++ {
+			o.Label(b[k*pipe.ReadBuf-1] == '\n', "newline-is-last-byte-of-read-buffer")
+		}
 		if i := bytes.Index(b, bytes.Repeat([]byte{'y'}, 70000)); i >= 0 {
 			// a >128KiB line followed by more lines => the read buffer was regrown with live slices
 			if j := bytes.IndexByte(b[i:], '\n'); j >= 0 && i+j+1 < len(b) {
